@@ -74,7 +74,7 @@ fn run() {
     let mut was_watching = false;
     let mut candidate: Option<(Certificate, Instant)> = None;
     let mut certified_at: Option<Instant> = None;
-    let mut cpu_at_change: u64 = 0;
+    let mut cpu_at_change: Option<(Vec<i32>, u64)> = None;
     loop {
         std::thread::sleep(Duration::from_millis(20));
         let w = WATCHING.load(SeqCst);
@@ -90,20 +90,28 @@ fn run() {
             case_start = now;
             last_len = usize::MAX;
             last_change = now;
-            cpu_at_change = subject_cpu_ticks();
+            cpu_at_change = None;
         }
         let len = ilog::len();
+        // CPU time of the subject thread(s); only meaningful while they are registered (Some)
+        let cpu_now = subject_cpu_ticks();
         if len != last_len {
             last_len = len;
             last_change = now;
             candidate = None;
-            cpu_at_change = subject_cpu_ticks();
+            cpu_at_change = cpu_now;
         } else if !ilog::overflowed() {
-            // no event at all: is the subject nevertheless burning CPU?  (3 s of CPU time without one system call)
-            let ticks = subject_cpu_ticks().saturating_sub(cpu_at_change);
-            let hz = unsafe { libc::sysconf(libc::_SC_CLK_TCK) }.max(1) as u64;
-            if ticks >= 3 * hz {
-                crate::run::fatal_spin(ticks as f64 / hz as f64);
+            // no event at all: is the subject nevertheless burning CPU?  (3 s of CPU time without one system call,
+            // measured between two samples that both saw the same registered subject threads)
+            match (&cpu_at_change, &cpu_now) {
+                (Some((tids0, t0)), Some((tids1, t1))) if tids0 == tids1 => {
+                    let ticks = t1.saturating_sub(*t0);
+                    let hz = unsafe { libc::sysconf(libc::_SC_CLK_TCK) }.max(1) as u64;
+                    if ticks >= 3 * hz {
+                        crate::run::fatal_spin(ticks as f64 / hz as f64);
+                    }
+                }
+                _ => cpu_at_change = cpu_now.clone(),
             }
         }
         if let Some(t) = certified_at {
@@ -150,19 +158,24 @@ fn run() {
     }
 }
 
-/// utime+stime (clock ticks) of the subject thread(s) of this process
-fn subject_cpu_ticks() -> u64 {
-    let mut total = 0;
-    for tid in ilog::subject_tids() {
-        if let Ok(s) = std::fs::read_to_string(format!("/proc/self/task/{}/stat", tid)) {
-            if let Some(r) = s.rfind(')') {
-                let f: Vec<&str> = s[r + 1..].split_whitespace().collect();
-                // fields after the command name: state(0) ... utime is the 12th, stime the 13th
-                if f.len() > 12 {
-                    total += f[11].parse::<u64>().unwrap_or(0) + f[12].parse::<u64>().unwrap_or(0);
-                }
-            }
-        }
+/// (registered subject threads, their utime+stime in clock ticks); None while no subject thread is registered
+fn subject_cpu_ticks() -> Option<(Vec<i32>, u64)> {
+    let tids = ilog::subject_tids();
+    if tids.is_empty() {
+        return None;
     }
-    total
+    // (opening /proc files creates transient descriptors: never while a descriptor audit is in progress)
+    let _g = inspect::PROC_LOCK.lock().unwrap_or_else(|e| e.into_inner());
+    let mut total = 0;
+    for tid in &tids {
+        let s = std::fs::read_to_string(format!("/proc/self/task/{}/stat", tid)).ok()?;
+        let r = s.rfind(')')?;
+        let f: Vec<&str> = s[r + 1..].split_whitespace().collect();
+        // fields after the command name: state(0) ... utime is the 12th, stime the 13th
+        if f.len() <= 12 {
+            return None;
+        }
+        total += f[11].parse::<u64>().ok()? + f[12].parse::<u64>().ok()?;
+    }
+    Some((tids, total))
 }
